@@ -180,6 +180,8 @@ def run(ctx, ck) -> None:
     det = table.by_name('DetectorArray')
     init = det.own.get('__init__')
     ok = False
+    order: list = []
+    len_name = None
     if isinstance(init, ast.FunctionDef):
         e = path_env(Path([('stmt', st) for st in init.body if isinstance(st, (ast.Assign, ast.AugAssign))]))
         x, y, z = (('var', a.arg) for a in init.args.args[1:4])
@@ -192,7 +194,11 @@ def run(ctx, ck) -> None:
         vals = [ast.unparse(st.value) for st in init.body if isinstance(st, ast.Assign) and arr and ast.unparse(st.targets[0]).startswith(f'{arr}[')]
         stored = any(isinstance(st, ast.Assign) and ast.unparse(st.targets[0]) == f'{init.args.args[0].arg}.coords' and arr in ast.unparse(st.value) for st in init.body) if arr else False
         ok = div is not None and order == [f'{arr}[0]', f'{arr}[1]', f'{arr}[2]'] and vals == [a.arg for a in init.args.args[1:4]] and stored
-    ck.expect('Q4', ok, init or det.node, 'detector directions are stored as (x, y, z) / sqrt(x^2 + y^2 + z^2)', 'DetectorArray no longer stores the unit vectors (x, y, z)/|v| in that order', instance='unit directions')
+    written_as_known = isinstance(init, ast.FunctionDef) and len(order) == 3 and len_name is not None
+    if ok or written_as_known:
+        ck.expect('Q4', ok, init or det.node, 'detector directions are stored as (x, y, z) / sqrt(x^2 + y^2 + z^2)', 'DetectorArray no longer stores the unit vectors (x, y, z)/|v| in that order', instance='unit directions')
+    else:
+        ck.incomplete('Q4', init or det.node, 'the detector directions are not built component by component into one array divided by its norm: whether (x, y, z)/|v| is stored in that order is not decided', instance='unit directions')
 
     # ------------------------------------------------------------------ Q5
     flow = InitFlow(world, table)
